@@ -428,6 +428,23 @@ def b_ghost(self, a, kw):
   return self.ghost[k]
 
 
+@H('ncalls')
+def b_ncalls(self, a, kw):
+  """spec-level: how many times the recorded-effect procedure was called on this path"""
+  return len(self.ghost.get('calls:' + a[0].py, []))
+
+
+@H('call_args')
+def b_call_args(self, a, kw):
+  """spec-level: argument tuple of the i-th recorded call"""
+  calls = self.ghost.get('calls:' + a[0].py, [])
+  i = a[1] if len(a) > 1 else 0
+  if not isinstance(i, int) or i >= len(calls):
+    # no such call on this path: unconstrained placeholder so that `ncalls(...) == k and ...` stays evaluable
+    raise OutsideSubset(f'call_args({a[0].py!r}, {i}): no such call on this path; guard with implies(ncalls(..) > i, ..)')
+  return calls[i]
+
+
 @H('other')
 def b_other(self, a, kw):
   """spec-level: some value of the (infinite opaque) sort different from the argument"""
